@@ -263,6 +263,8 @@ Definition make_pair_member_spec (wrapped : option bool) : ty :=
 
 (* [dcl.struct.bind] + [tuple.helper]: std::tuple supports structured bindings; [tuple.elem] / [pair.astuple]: get<T> *)
 Definition tuple_structured_binding_spec : bool := true.
+(* [tuple.cnstr]: tuple(const tuple<UTypes...>&), tuple(tuple<UTypes...>&&), tuple(const pair<U1, U2>&), tuple(pair<U1, U2>&&) *)
+Definition tuple_converting_ctor_spec : bool := true.
 Definition get_by_type_spec (is_pair : bool) : bool := true.
 
 (* ================================================================================================ *)
@@ -392,3 +394,18 @@ Definition ref_wf_spec (a : ty) : bool := match rf a with RL => true | _ => fals
 Definition cref_wf_spec (a : ty) : bool := match rf a with RL => true | _ => false end.
 
 Definition refwrap_std_spec (x : Z) : Z * Z := (x + 1, Z.abs x mod 7).
+
+(* [pairs.spec] swap(pair&, pair&): Constraints is_swappable_v<T1> && is_swappable_v<T2>.  (For a copy-only member, whose
+   move operations are deleted, libstdc++ additionally deletes the overload while the standard's wording lets the generic
+   std::swap copy: that combination is left out of the comparison.) *)
+Definition pair_swappable_spec (a b : elem) : bool := elem_swappable a && elem_swappable b.
+
+(* [func.wrap.ref.ctor]: function_ref(F* f) with is_function_v<F> initialises bound-entity with f (the pointer itself);
+   [func.wrap.ref.class]: operator=(T) is deleted unless T is function_ref or a pointer *)
+Definition fref_ptr_spec (v : Z) : list Z * list bool :=
+  ([v + 1; v + 1; v + 1; v + 2], [false; false; true; true; false; true]).
+
+(* copies (x10) and moves (x1) of the tracked element prescribed by [func.bind.partial] (bound arguments are decay-copied once,
+   delivered as lvalues / xvalues), [func.wrap.func.con] (the target is direct-initialised with std::forward<F>(f)),
+   [tuple.creation], [tuple.apply] for the eleven expressions of op xfer *)
+Definition xfer_spec : list Z := [10; 1; 11; 2; 10; 1; 10; 1; 1; 2; 2].
